@@ -68,8 +68,8 @@ type c15Scen struct {
 	// StatsPoll: a goroutine reads the global and per-client statistics continuously (an exporter / admin API polling);
 	// every single read must return within the usual bound
 	StatsPoll bool `json:"stats_poll,omitempty"`
-	// StalledInflight (0 none, 4/5 = protocol version): a persistent subscriber gets more QoS 1 data in flight than the
-	// transport buffers, never reads, is killed; it resumes the session, reads only the CONNACK while the broker is
+	// StalledInflight (0 none, 4/5 = protocol version): a persistent subscriber gets more QoS 1 messages in flight (14 x 100 KiB, max_inflight 20) than the
+	// connection's output channel and the transport buffers, never reads, is killed; it resumes the session, reads only the CONNACK while the broker is
 	// retransmitting into the full pipe, is killed again; a third CONNECT with the client id must be answered
 	StalledInflight int `json:"stalled_inflight_v,omitempty"`
 }
@@ -135,11 +135,16 @@ func runC15(s c15Scen, c *ev.Case) *ev.Violation {
 	cfg := fixture.BaseConfig()
 	cfg.MQTT.MaxQueuedMsg = 20
 	cfg.MQTT.MaxInflight = 5
+	if s.StalledInflight != 0 {
+		// room for more in-flight messages than the connection's output channel (8) and the transport buffers hold
+		cfg.MQTT.MaxQueuedMsg = 40
+		cfg.MQTT.MaxInflight = 20
+	}
 	if s.Overlap {
 		cfg.MQTT.DeliveryMode = "overlap"
 		c.Label("delivery_mode_overlap")
 	}
-	if s.TightQueue > 0 {
+	if s.TightQueue > 0 && s.StalledInflight == 0 {
 		cfg.MQTT.MaxQueuedMsg = s.TightQueue
 		cfg.MQTT.MaxInflight = 2
 		cfg.MQTT.InflightExpiry = 20 * time.Millisecond
@@ -461,8 +466,8 @@ func runC15(s c15Scen, c *ev.Case) *ev.Violation {
 				a.Close()
 				return
 			}
-			big := make([]byte, 200*1024)
-			for k := 0; k < 6; k++ {
+			big := make([]byte, 100*1024)
+			for k := 0; k < 14; k++ {
 				b.Srv.Publisher().Publish(&gmqtt.Message{Topic: "floodq", QoS: 1, Payload: big})
 			}
 			time.Sleep(30 * time.Millisecond)
